@@ -490,6 +490,31 @@ def shard_cli(shard, nshards, tier, seed, scratch):
             if rc != 0 or 'Traceback' in stderr or 'BrokenPipe' in stderr or 'Error' in stderr:
                 failures.append({'leg': 'cli', 'clause': 'cli-broken-pipe', 'detail': {'cmd': cmd, 'rbql_exit': rc, 'stderr': stderr[-400:], 'stdout': p.stdout[-100:]}, 'case': {'kind': 'cli', 'query': q, 'n': n}})
                 break
+    # the input table on standard input with an invalid UTF-8 byte, under the locale / UTF-8-mode settings that make sys.stdin lenient
+    # (errors='surrogateescape'): always an IO-handling error, whatever columns the query touches
+    good = 'k1,\u00e9a,1\nk2,\u20acb,2\nk3,c,3\n'.encode('utf-8')
+    if not failures:
+        for pos in (0, 4, 9, len(good) - 2):
+            data = good[:pos] + b'\x80' + good[pos:]
+            for envx in ({}, {'LC_ALL': 'C', 'LANG': 'C'}, {'PYTHONUTF8': '1'}, {'PYTHONIOENCODING': 'utf-8:surrogateescape'}):
+                for q in ('select a3', 'select a2, a1', 'select count(*)'):
+                    e2 = dict(env)
+                    for k in ('LC_ALL', 'LANG', 'PYTHONUTF8', 'PYTHONIOENCODING'):
+                        e2.pop(k, None)
+                    e2.update(envx)
+                    p = subprocess.run([sys.executable, '-m', 'rbql', '--delim', ',', '--policy', 'quoted', '--encoding', 'utf-8', '--query', q], input=data, capture_output=True, env=e2, cwd=scratch)
+                    stats.evaluations += 1
+                    stats.nontrivial_counted += 1
+                    err = p.stderr.decode('utf-8', errors='replace')
+                    if p.returncode == 0 or 'Error [IO handling]' not in err or 'Traceback' in err:
+                        failures.append({'leg': 'cli', 'clause': 'cli-stdin-invalid-utf8-not-io-error', 'detail': {'query': q, 'env': envx, 'bad_byte_at': pos, 'exit': p.returncode, 'stderr': err[-300:], 'stdout': p.stdout[:80].decode('utf-8', errors='replace')},
+                                         'case': {'kind': 'cli', 'query': q, 'n': pos}})
+                        break
+                if failures:
+                    break
+            if failures:
+                break
+        stats.bump('cli-stdin-invalid-utf8')
     stats.samples = [{'cmd': 'python -m rbql --delim , --policy quoted --input big.csv --query "select a1, a2" | head -c 4097', 'expect': 'exit 0, empty stderr'}]
     return {'stats': stats.export(), 'failures': failures[:1]}
 
